@@ -1068,6 +1068,105 @@ pub fn c12_binding(ctx: &Ctx) -> Acc {
     acc
 }
 
+/// C07 (c) in the build WITHOUT any cargo feature, observed without the log: the rescaled Feynman parameters are recovered by the
+/// `nolog` binary from `Metadata.u_vectors` (unit shift on one edge at a time) with debug output off and on; they must be
+/// identical and satisfy the tropical normalisation.
+pub fn c07_nolog_pass(ctx: &Ctx) -> Result<Acc, String> {
+    let root = verif_dir();
+    let bin = format!("{root}/target/release/nolog");
+    if !std::path::Path::new(&bin).exists() {
+        return Err(format!("{bin} not built"));
+    }
+    let all = fam_for(Tier::Quick, "C07");
+    let want = ctx.tier.pick(120usize, 400usize);
+    let step = (all.len() / want).max(1);
+    let hx = |x: f64| format!("{:016x}", x.to_bits());
+    let roles = Roles { u: false, xi: true, p: false, ab: false, xi_moderate: true, xi_ladder: false };
+    let mut corpus = vec![];
+    let mut cases = vec![];
+    for spec in all.iter().step_by(step) {
+        let case = match Case::new(spec) {
+            Some(c) if c.generic => c,
+            _ => continue,
+        };
+        let r = match route(&case, &case.base_kin()) {
+            Ok(r) => r,
+            Err(_) => continue,
+        };
+        let ne = case.g.ne();
+        let mut pts: Vec<Vec<f64>> = vec![];
+        for order in [(0..ne).collect::<Vec<usize>>(), (0..ne).rev().collect::<Vec<usize>>()] {
+            let mut p: Vec<Vec<f64>> = sector_points(&case, &order, 1, &roles).into_iter().map(|p| p.0).collect();
+            p.truncate(6);
+            pts.extend(p);
+        }
+        corpus.push(json!({
+            "dim": case.g.dim,
+            "recover": true,
+            "edges": (0..ne).map(|e| json!({"v": [r.graph.edges[e].0, r.graph.edges[e].1], "massive": case.g.massive[e], "weight": hx(case.g.weights[e])})).collect::<Vec<_>>(),
+            "externals": case.g.externals,
+            "sig": r.kin.sig,
+            "edge_data": r.ed.iter().map(|(m, s)| json!({"mass": m.map(hx), "shift": s.iter().map(|c| hx(*c)).collect::<Vec<_>>()})).collect::<Vec<_>>(),
+            "settings": [{"stability": Value::Null, "debug": false, "metadata": true}, {"stability": Value::Null, "debug": true, "metadata": true}],
+            "points": pts.iter().map(|x| x.iter().map(|c| hx(*c)).collect::<Vec<_>>()).collect::<Vec<_>>(),
+        }));
+        cases.push((case, r, pts));
+    }
+    let cpath = format!("{root}/target/nolog_c07_{}.json", std::process::id());
+    let opath = format!("{root}/target/nolog_c07_out_{}.json", std::process::id());
+    std::fs::write(&cpath, serde_json::to_string(&corpus).unwrap()).map_err(|e| e.to_string())?;
+    let status = std::process::Command::new(&bin).args([&cpath, &opath]).stdout(std::process::Stdio::null()).stderr(std::process::Stdio::null()).status().map_err(|e| e.to_string())?;
+    if !status.success() {
+        return Err("nolog binary failed".into());
+    }
+    let out: Value = serde_json::from_str(&std::fs::read_to_string(&opath).map_err(|e| e.to_string())?).map_err(|e| e.to_string())?;
+    let _ = std::fs::remove_file(&cpath);
+    let _ = std::fs::remove_file(&opath);
+    let mut acc = Acc::new();
+    for (ci, ((case, r, pts), theirs)) in cases.iter().zip(out.as_array().ok_or("nolog output")?).enumerate() {
+        let rec = theirs["recovered"].as_array().cloned().unwrap_or_default();
+        let np = pts.len();
+        if rec.len() != 2 * np {
+            continue;
+        }
+        let parse = |v: &Value| -> Option<Vec<f64>> { v.as_array()?.iter().map(|x| x.as_str().map(|s| f64::from_bits(u64::from_str_radix(s, 16).unwrap()))).collect() };
+        for k in 0..np {
+            let (quiet, debug) = (parse(&rec[k]), parse(&rec[np + k]));
+            let (quiet, debug) = match (quiet, debug) {
+                (Some(a), Some(b)) => (a, b),
+                _ => continue,
+            };
+            acc.inc("nolog_parameter_sets_recovered");
+            let st = Settings { stability: None, debug: true, metadata: true };
+            let pc = || point_case(case, &r.kin, &pts[k], &st, json!({"prop": "C07", "build": "no features", "corpus_entry": ci}));
+            if quiet.iter().zip(&debug).any(|(a, b)| a.to_bits() != b.to_bits()) {
+                acc.violate(pkey("C07", "nolog: parameters independent of debug output", case, &pts[k]), "the parameters that are used do not depend on print_debug_info (build without features)", format!("feature-less build: recovered parameters {quiet:?} (quiet) vs {debug:?} (print_debug_info)"), pc());
+                continue;
+            }
+            for (label, xs) in [("quiet", &quiet), ("print_debug_info", &debug)] {
+                if !(finite_pos(xs) && xs.iter().all(|v| *v >= 1e-140 && *v <= 1e140)) {
+                    continue;
+                }
+                let xq: Vec<Q> = xs.iter().map(|v| qf(*v)).collect();
+                let (ut, ft) = trop_exact(case, &xq);
+                if ft.is_zero() || ut.is_zero() {
+                    continue;
+                }
+                let lu = q_ln(&ut);
+                let lv = q_ln(&ft) - lu;
+                let d2 = case.g.dim as f64 / 2.0;
+                let lhs = d2 * lu + case.dod * lv;
+                let kap = 1.0 + (d2 * case.nl as f64 + case.dod) * xs.iter().map(|v| v.ln().abs()).fold(0.0, f64::max);
+                acc.inc("nolog_normalisation_judged");
+                if !(lhs.abs() <= 1e-9 * kap) {
+                    acc.violate(pkey("C07", "nolog: U_tr^(D|2) V_tr^dod = 1 after rescaling", case, &pts[k]), "U_tr^(D/2) V_tr^dod = 1 after rescaling (build without features)", format!("feature-less build, {label}: ln(U_tr^(D/2) V_tr^dod) = {lhs:e} at the parameters recovered from u_vectors (allowed {:e})", 1e-9 * kap), pc());
+                }
+            }
+        }
+    }
+    Ok(acc)
+}
+
 pub fn run_simple(ctx: &Ctx) -> i32 {
     let tier = ctx.tier;
     let prop = ctx.prop.as_str();
@@ -1145,6 +1244,16 @@ pub fn run_simple(ctx: &Ctx) -> i32 {
         _ => unreachable!(),
     };
     let mut acc = explore(&plan, f);
+    if prop == "C07" {
+        match c07_nolog_pass(ctx) {
+            Ok(a) => acc.merge(a),
+            Err(e) => {
+                eprintln!("[C07] MACHINERY: {e}");
+                return 2;
+            }
+        }
+        acc.violations.sort_by(|a, b| (a.key.as_str(), a.what.as_str()).cmp(&(b.key.as_str(), b.what.as_str())));
+    }
     if prop == "C13" {
         // each component is computed FROM its pair in the caller's scalar type: dependence sets of a tracking scalar
         // (a detour through f64 is bit-identical for f64 callers and would be invisible above)
